@@ -95,7 +95,7 @@ impl Prop for C06 {
     }
     fn cases(&self, tier: Tier) -> usize {
         match tier {
-            Tier::Quick => 1200,
+            Tier::Quick => 2400,
             Tier::Thorough => 12000,
         }
     }
